@@ -179,6 +179,9 @@ func NewWorker(p *Program, solverKind string, timeoutMs, seed int) *Worker {
 		}
 	}
 	w.Sol = smt.NewSolver(solverKind, timeoutMs, seed)
+	if os.Getenv("SYMGO_SLOWLOG") != "" {
+		w.Sol.SlowLog = os.Stderr
+	}
 	// run initializers of the target packages (which pull in their imports)
 	ps := w.newPathState(nil, DefaultLimits(), false)
 	ps.lim.MaxInstrs = 2_000_000_000
